@@ -17,7 +17,8 @@ from pyvc import loader
 from pyvc.flow import dotted, ground_obligation
 
 from contracts.c03_flow import iteration_paths, MANY
-from contracts.c14_flow import parent_map, ancestors, reaching, pos, bindings_of, method_calls
+from contracts.c14_inline import line_of as LN, inlined as inline_helpers
+from contracts.c14_flow import parent_map, ancestors, reaching, pos, bindings_of, method_calls, enclosing_stmt
 
 EX = "sharepoint2text/parsing/extractors/"
 
@@ -40,23 +41,36 @@ def loops_around(pm, node):
 
 
 def is_inc(n, name):
-    return isinstance(n, ast.AugAssign) and isinstance(n.op, ast.Add) and isinstance(n.target, ast.Name) and n.target.id == name \
-        and isinstance(n.value, ast.Constant) and n.value.value == 1
+    """`name += 1`, `name = name + 1`, `name = 1 + name`"""
+    if isinstance(n, ast.AugAssign) and isinstance(n.op, ast.Add) and isinstance(n.target, ast.Name) and n.target.id == name \
+            and isinstance(n.value, ast.Constant) and n.value.value == 1:
+        return True
+    if isinstance(n, ast.Assign) and len(n.targets) == 1 and isinstance(n.targets[0], ast.Name) and n.targets[0].id == name \
+            and isinstance(n.value, ast.BinOp) and isinstance(n.value.op, ast.Add):
+        l, r = n.value.left, n.value.right
+        one = lambda e: isinstance(e, ast.Constant) and e.value == 1 and not isinstance(e.value, bool)
+        me = lambda e: isinstance(e, ast.Name) and e.id == name
+        return (me(l) and one(r)) or (one(l) and me(r))
+    return False
 
 
 def is_other_write(n, name):
     if isinstance(n, ast.AugAssign) and isinstance(n.target, ast.Name) and n.target.id == name and not is_inc(n, name):
         return True
-    if isinstance(n, ast.Assign) and any(isinstance(t, ast.Name) and t.id == name for t in n.targets):
+    if isinstance(n, ast.Assign) and any(isinstance(t, ast.Name) and t.id == name for t in n.targets) and not is_inc(n, name):
         return True
     return False
 
 
 class Checker:
-    def __init__(self, prop, rel, fname, repo):
-        self.rel, self.fname = rel, fname
+    def __init__(self, prop, rel, fname, repo, inline=True, real=None):
+        self.rel, self.fname = rel, fname           # fname: the name used in obligation ids; real: the function found by role after a rename
         self.mod = loader.module(rel, repo)
-        self.fn = self.mod.functions.get(fname)
+        real = real or fname
+        self.real = real
+        self.raw_fn = self.mod.functions.get(real)
+        # small private helpers of the module are inlined (AST level), so that the analyses follow the data flow through them
+        self.fn, self.inlined_helpers = inline_helpers(self.mod, real) if (inline and self.raw_fn is not None) else (self.raw_fn, [])
         self.short = rel.split("/")[-1]
         self.obls = []
         self.total = set()      # names of repo functions proved not to raise (sniffers) / dataclass constructors
@@ -72,8 +86,14 @@ class Checker:
         self.add(kind, label, False, detail, definite=False)
 
     # ---------------------------------------------------------------- numbering --
-    def step_discipline(self, counter, numbered, unnumbered, label="one-increment-per-numbered-image", loop=None):
-        """numbered / unnumbered: predicates on AST nodes marking the append events."""
+    def step_discipline(self, counter, numbered, unnumbered, label="one-increment-per-numbered-image", loop=None, unfollowed=None):
+        """numbered / unnumbered: predicates on AST nodes marking the append events; `unfollowed`: mutations of the image list that the
+        analysis does not follow (then the obligation is `unknown`: the native replayer decides)."""
+        if unfollowed is not None:
+            uf = [n for n in ast.walk(self.fn) if unfollowed(n)]
+            if uf:
+                return self.unknown("numbering", label, f"the image list is also changed in a way the analysis does not follow (line {LN(uf[0])}: "
+                                                        f"{ast.unparse(uf[0])[:60]})")
         sites = [n for n in ast.walk(self.fn) if numbered(n)]
         if not sites:
             return self.unknown("numbering", label, "no numbered image append found")
@@ -103,39 +123,61 @@ class Checker:
             for (vec, status) in paths2(lp.body, events, self.total):
                 inc, num, unn, other = vec
                 if other:
-                    bad.append(f"counter re-assigned inside the image loop (line {lp.lineno})")
+                    bad.append(f"counter re-assigned inside the image loop (line {LN(lp)})")
                 elif unn:
-                    bad.append(f"a path appends an image without a number (loop at line {lp.lineno}, path ends with {status})")
+                    bad.append(f"a path appends an image without a number (loop at line {LN(lp)}, path ends with {status})")
                 elif (inc, num) not in ((0, 0), (1, 1)):
-                    bad.append(f"a path through the loop at line {lp.lineno} has {inc if inc < MANY else 'several'} increment(s) and "
+                    bad.append(f"a path through the loop at line {LN(lp)} has {inc if inc < MANY else 'several'} increment(s) and "
                                f"{num if num < MANY else 'several'} numbered append(s) (path ends with {status})")
         self.add("numbering", label, not bad, "; ".join(sorted(set(bad)))[:600])
 
     def number_is_counter_after_increment(self, counter, ctor_sites, num_kw, label="number-is-the-counter-after-its-increment"):
+        """The number stored is (images appended so far) + 1: either the counter right after its increment, or `counter + 1` evaluated
+        before the increment of this iteration (the number may travel through plain local names / helper parameters)."""
         bad = []
         for c in ctor_sites:
             v = kwv(c, num_kw)
             if v is None:
                 continue
-            if not (isinstance(v, ast.Name) and v.id == counter):
-                bad.append(f"line {c.lineno}: {num_kw}={ast.unparse(v)}")
+            at = c
+            for _ in range(4):            # follow `n = <expr>` chains
+                if isinstance(v, ast.Name) and v.id != counter:
+                    b = reaching(self.fn, self.pm, v.id, at)
+                    if b is None or b.kind != "assign":
+                        break
+                    v, at = b.value, b.node
+                else:
+                    break
+            loops = loops_around(self.pm, c)
+            in_loop = set(id(x) for x in ast.walk(loops[0])) if loops else set()
+            if isinstance(v, ast.Name) and v.id == counter:
+                b = reaching(self.fn, self.pm, counter, at)
+                if b is None or not is_inc(b.node, counter):
+                    bad.append(f"line {LN(c)}: the value of {counter} used is not the one right after its increment")
                 continue
-            b = reaching(self.fn, self.pm, counter, c)
-            if b is None or not is_inc(b.node, counter):
-                bad.append(f"line {c.lineno}: the value of {counter} used is not the one right after `{counter} += 1`")
+            plus1 = isinstance(v, ast.BinOp) and isinstance(v.op, ast.Add) and \
+                ((isinstance(v.left, ast.Name) and v.left.id == counter and isinstance(v.right, ast.Constant) and v.right.value == 1) or
+                 (isinstance(v.right, ast.Name) and v.right.id == counter and isinstance(v.left, ast.Constant) and v.left.value == 1))
+            if plus1:
+                b = reaching(self.fn, self.pm, counter, at)
+                if b is not None and not (is_inc(b.node, counter) and id(b.node) in in_loop):
+                    continue              # counter not yet incremented in this iteration: counter + 1 is the next number
+                bad.append(f"line {LN(c)}: `{ast.unparse(v)}` is evaluated after the increment of this iteration")
+                continue
+            bad.append(f"line {LN(c)}: {num_kw}={ast.unparse(v)[:60]}")
         self.add("numbering", label, not bad, "; ".join(bad))
 
     def starts_at_zero_once(self, counter, fn=None, label="counter-starts-at-zero-once-per-document", unit_loop_ok=None):
         """`counter = 0` exactly once in `fn`, outside every loop, and fn is the per-document function."""
         fn = fn or self.fn
         pm = parent_map(fn)
-        inits = [n for n in ast.walk(fn) if isinstance(n, (ast.Assign, ast.AnnAssign)) and
+        inits = [n for n in ast.walk(fn) if isinstance(n, (ast.Assign, ast.AnnAssign)) and not is_inc(n, counter) and
                  any(isinstance(t, ast.Name) and t.id == counter for t in (n.targets if isinstance(n, ast.Assign) else [n.target]))]
         zero = [n for n in inits if isinstance(n.value, ast.Constant) and n.value.value == 0]
         if len(zero) != 1 or len(inits) != len(zero) + len([n for n in inits if n not in zero and self._threaded(n, counter)]):
             return self.add("numbering", label, False, f"{len(zero)} zero-initialisations, {len(inits)} assignments of {counter} in {fn.name}")
         if loops_around(pm, zero[0]):
-            return self.add("numbering", label, False, f"{counter} = 0 sits inside a loop (line {zero[0].lineno})")
+            return self.add("numbering", label, False, f"{counter} = 0 sits inside a loop (line {LN(zero[0])})")
         return zero[0]
 
     def _threaded(self, n, counter):
@@ -174,6 +216,11 @@ def payload_source(ck: Checker, call, payload_kw, wrap=None):
 def read_def(ck: Checker, name_node, at, reads):
     """The container read `X = <obj>.<read>(P)` reaching `at`, or (None, why)."""
     b = reaching(ck.fn, ck.pm, name_node.id, at)
+    for _ in range(4):          # follow plain renamings `a = b`
+        if b is not None and b.kind == "assign" and isinstance(b.value, ast.Name):
+            b = reaching(ck.fn, ck.pm, b.value.id, b.node)
+        else:
+            break
     if b is None:
         return None, f"no unique reaching definition of {name_node.id}"
     if b.kind != "assign":
